@@ -199,6 +199,7 @@ class ObjectInliner:
         self.counter = 0
         self.helpers: Dict[str, ast.FunctionDef] = {}
         self.tmp_cls: Dict[str, ClassModel] = {}
+        self.expanded: Dict[int, Set[Tuple[str, str]]] = {}     # per function: (class, method) pairs already expanded (recursion guard)
         self.done = 0
 
     # -- helpers for one object ------------------------------------------------------------------------------------------
@@ -291,11 +292,15 @@ class ObjectInliner:
             if any(isinstance(n, (ast.Lambda, ast.FunctionDef)) and n is not fn and any(isinstance(x, ast.Name) and x.id == v for x in ast.walk(n))
                    for n in ast.walk(fn)):
                 continue
+            done_here = self.expanded.setdefault(id(fn), set())
+            if any((cname, m) in done_here for m in used_methods if m != '__init__'):
+                continue          # the object comes out of an expansion of the same method: recursion, left as a call
             self.counter += 1
             k = str(self.counter)
             hs = self._helpers_for(cm, k, used_methods)
             if hs is None:
                 continue
+            done_here |= {(cname, h.split('_', 3)[-1] if False else h[len(f'__X{k}_'):]) for h in hs}
             self.helpers.update(hs)
             # rewrite the uses
             class RW(ast.NodeTransformer):
